@@ -36,6 +36,10 @@ def gen_cases(chk):
     # None / empty
     cases.append({"graph": {"a": ["b"]}, "roles": None, "fam": "none"})
     cases.append({"graph": {}, "roles": ["x", "x"], "fam": "emptygraph"})
+    # no graph at all: StaticRoleResolver() / StaticRoleResolver(None) behave like the empty graph
+    for rl in (["x", "x"], ["b", "a"], [], None):
+        cases.append({"graph": {}, "roles": rl, "fam": "nograph", "ctor": "none"})
+        cases.append({"graph": {}, "roles": rl, "fam": "nograph", "ctor": "default"})
     # random larger graphs: cycles, diamonds, self-loops, duplicate parents, keys missing, non-ASCII names
     n_rand = 1000 if chk.tier == "quick" else 14000
     for _ in range(n_rand):
@@ -61,6 +65,10 @@ def impl_expand(c):
     from rbacx.core.roles import StaticRoleResolver
 
     try:
+        if c.get("ctor") == "none":
+            return StaticRoleResolver(None).expand(c["roles"])
+        if c.get("ctor") == "default":
+            return StaticRoleResolver().expand(c["roles"])
         return StaticRoleResolver(c["graph"]).expand(c["roles"])
     except Exception as e:  # noqa: BLE001
         return ["!raise", type(e).__name__]
